@@ -33,6 +33,19 @@ theorem C05_bridge_wiring :
     Gen.Similarity.parallelWiring.map (Gen.Similarity.attemptWiring.getD · 99) = [0, 1, 2, 3, 4, 5] ∧
     Gen.Similarity.reconvergeWiring = [0, 1, 2, 3, 4, 5] := by decide
 
+/-- Bridge: the network-touching statements of the current `test_new_ts`, in source order, are
+    the modelled gate `testNewTs` (the same obligation as `C03_bridge_steps`; the round theorems
+    below are about `testNewTs`). -/
+theorem C05_bridge_steps (same : δ → δ → Bool) (c : Bool) (s : Ktn δ) (r : Rec δ) :
+    runSteps same c Gen.Similarity.cfg.testNewTsSteps s r = testNewTs same c s r := by
+  simp only [Gen.Similarity.cfg, runSteps, List.foldl_cons, List.foldl_nil, runStep, testNewTs,
+    lookupOrInsert]
+  cases h1 : isNewTs same s r.ts
+  · simp
+  · cases h2 : isNewMinimum same s r.plus <;>
+      simp [TsRun.setIdx, TsRun.idx, Rec.side, h2] <;>
+      (split <;> simp_all [TsRun.setIdx, TsRun.idx, Rec.side])
+
 /-- Bridge: the store counts a transition state only when its pair was not connected before. -/
 theorem C05_bridge_counter : Gen.Ktn.cfg.addTsCountsOnlyNew = true := by decide
 
